@@ -82,6 +82,21 @@ func zzParseAttrs(spec string) []*onnx.AttributeProto {
 				fs = append(fs, float32(zzAtoi(x)))
 			}
 			out = append(out, &onnx.AttributeProto{Name: name, Type: onnx.AttributeProto_FLOATS, Floats: fs})
+		case "value_raw":
+			// a TENSOR attribute "value" stored as raw bytes: "<data_type code>:<n elements>:<hex bytes>"
+			f := zzSplit(val, ':')
+			var raw []byte
+			hex := f[2]
+			nib := func(c byte) byte {
+				if c >= 'a' {
+					return c - 'a' + 10
+				}
+				return c - '0'
+			}
+			for i := 0; i+1 < len(hex); i += 2 {
+				raw = append(raw, nib(hex[i])<<4|nib(hex[i+1]))
+			}
+			out = append(out, &onnx.AttributeProto{Name: "value", Type: onnx.AttributeProto_TENSOR, T: &onnx.TensorProto{DataType: int32(zzAtoi(f[0])), Dims: []int64{int64(zzAtoi(f[1]))}, RawData: raw}})
 		case "value_float", "alpha", "beta":
 			out = append(out, &onnx.AttributeProto{Name: name, Type: onnx.AttributeProto_FLOAT, F: float32(zzAtoi(val))})
 		default:
@@ -207,7 +222,16 @@ func H_C01(v *zzverif.T) {
 	}
 	var m *Model
 	var lerr error
-	panicked := v.Try(func() { m, lerr = NewModel(g.zzModelProto(inits)) })
+	mp := g.zzModelProto(inits)
+	if v.Has("opsets") {
+		// opset imports as "domain=version" (default: the default domain spelled "")
+		mp.OpsetImport = nil
+		for _, o := range v.CStrs("opsets") {
+			kv := zzSplit(o, '=')
+			mp.OpsetImport = append(mp.OpsetImport, &onnx.OperatorSetIdProto{Domain: kv[0], Version: int64(zzAtoi(kv[1]))})
+		}
+	}
+	panicked := v.Try(func() { m, lerr = NewModel(mp) })
 	v.Assert("C01.model-loads", !panicked && lerr == nil)
 	if panicked || lerr != nil {
 		return
